@@ -930,3 +930,12 @@ impl From<Vec<PasswordAlgorithm>> for PasswordAlgorithms {
     ensures r.algorithms@ == v@,
 //@end
 }
+impl IntoIterator for PasswordAlgorithms {
+    type Item = PasswordAlgorithm;
+    type IntoIter = std::vec::IntoIter<PasswordAlgorithm>;
+    // consuming a value never panics, whether or not clones of it are alive (it copies the shared list)
+//@item stun_rs :: mod attributes > mod stun > mod password_algorithms > impl IntoIterator for PasswordAlgorithms > fn into_iter
+//@tags C19
+//@subopt "Arc::try_unwrap(" => "vx_arc_try_unwrap("
+//@end
+}
